@@ -27,10 +27,10 @@ def process_level(res, tier):
     """the real binary: main() derives angle, voltages and drift itself; centroid from the stored moments"""
     exe = pl.build.build_bin("plain")
     wd = pl.workdir("c03")
-    stepss = [16, 32, 64] if tier == "thorough" else [32]
-    ns = [32, 33, 48] if tier == "thorough" else [32, 33]
-    shifts = [(0, 0), (2, -1), (-3, 2)] if tier == "thorough" else [(0, 0), (2, -1)]
-    starts = [(1.0, 0.0), (-0.6, 0.8), (0.0, -1.1)] if tier == "thorough" else [(1.0, 0.0), (-0.6, 0.8)]
+    stepss = [16, 32, 64] if vlib.wide(tier) else [32]
+    ns = [32, 33, 48] if vlib.wide(tier) else [32, 33]
+    shifts = [(0, 0), (2, -1), (-3, 2)] if vlib.wide(tier) else [(0, 0), (2, -1)]
+    starts = [(1.0, 0.0), (-0.6, 0.8), (0.0, -1.1)] if vlib.wide(tier) else [(1.0, 0.0), (-0.6, 0.8)]
     cases = []
     for steps in stepss:
         for n in ns:
@@ -42,18 +42,25 @@ def process_level(res, tier):
                                 continue
                             # synchrotron frequency: close to what the default alpha0 implies, and far from it (main() then derives alpha0 from -f)
                             for fs in ((45000.0, 30000.0) if (sx, sy) == shifts[0] and si == 0 else (45000.0,)):
-                                cases.append((steps, n, sx, sy, si, q0, p0, rf, per, fs, 12))
+                                cases.append((steps, n, sx, sy, si, q0, p0, rf, per, fs, 12, None))
                             if per == "Ts" and si == 0:      # another phase-space size
-                                cases.append((steps, n, sx, sy, si, q0, p0, rf, per, 45000.0, 9))
+                                cases.append((steps, n, sx, sy, si, q0, p0, rf, per, 45000.0, 9, None))
+                            # RF voltages close to the radiation loss per turn (45.5 kV for the default ring): the synchronous phase is far from zero,
+                            # the focusing slope of the sinusoidal voltage is V_RF cos(phi_s) - the rotation angle per step must not depend on it
+                            if per == "Ts" and (sx, sy) == shifts[0] and si == 0:
+                                for vrf in (3e5, 1.5e5):     # (at 100 kV an amplitude of 0.25 is no longer small: the potential is visibly asymmetric)
+                                    cases.append((steps, n, sx, sy, si, q0, p0, rf, per, 45000.0, 12, vrf))
 
     def do(c):
-        steps, n, sx, sy, si, q0, p0, rf, per, fs, pq = c
+        steps, n, sx, sy, si, q0, p0, rf, per, fs, pq, vrf = c
         sc = 1.0 if rf == "linear" else 0.25
-        tag = "s%d_n%d_%g_%g_%d_%s_%s_%g_%g" % (steps, n, sx, sy, si, rf, per, fs, pq)
+        tag = "s%d_n%d_%g_%g_%d_%s_%s_%g_%g_%s" % (steps, n, sx, sy, si, rf, per, fs, pq, vrf)
         start = os.path.join(wd, "start_%s.h5" % tag)
-        pl.write_start_h5(start, n, gauss_start(n, sx, sy, q0 * sc, p0 * sc, 0.7))
+        pl.write_start_h5(start, n, gauss_start(n, sx, sy, q0 * sc, p0 * sc, 0.4 if vrf else 0.7))   # low voltage: a short blob (the voltage's curvature over a long one moves the centre of the rotation)
         a = ["-s", n, "-T", 1, "-n", 1, "-G", 0, "-d", 0, "--FPType", 0, "--RenormalizeCharge", -1, "-i", start, "-f", fs,
              "--PhaseSpaceShiftX", sx, "--PhaseSpaceShiftY", sy, "--InterpolationPoints", 4, "--LinearRF", "true" if rf == "linear" else "false", "--padding", 2, "--PhaseSpaceSize", pq]
+        if vrf:
+            a += ["--AcceleratingVoltage", vrf]
         if per == "Ts":
             a += ["-N", steps]
         else:   # steps given per revolution: steps per synchrotron period = k*f_rev/fs ; -N deliberately set to something else
@@ -68,9 +75,9 @@ def process_level(res, tier):
         return c, r, doc
 
     for c, r, doc in pl.pmap(do, cases):
-        steps, n, sx, sy, si, q0, p0, rf, per, fs, pq = c
-        case = "process steps=%d n=%d shift=%g,%g start=%d rf=%s stepsper=%s fs=%g%s" % (steps, n, sx, sy, si, rf, per, fs, "" if pq == 12 else " phasespacesize=%g" % pq)
-        rp = dict(cmd=r["cmd"], note="start file: Gaussian blob at (%g,%g)*%s, width 0.7, written by tools/h5json --write" % (q0, p0, "1" if rf == "linear" else "0.25"))
+        steps, n, sx, sy, si, q0, p0, rf, per, fs, pq, vrf = c
+        case = "process steps=%d n=%d shift=%g,%g start=%d rf=%s stepsper=%s fs=%g%s%s" % (steps, n, sx, sy, si, rf, per, fs, "" if pq == 12 else " phasespacesize=%g" % pq, " V_RF=%g" % vrf if vrf else "")
+        rp = dict(cmd=r["cmd"], note="start file: Gaussian blob at (%g,%g)*%s, width %s, written by tools/h5json --write" % (q0, p0, "1" if rf == "linear" else "0.25", "0.4" if vrf else "0.7"))
         if doc is None or "error" in doc:
             res.violate("C03/process/run-failed", case, "rc=%s %s" % (r["rc"], r["log"][-200:]), replay=rp)
             continue
@@ -79,7 +86,7 @@ def process_level(res, tier):
         res.eval(case, pl.chash(case, q, p), trivial=False)
         a = 2 * math.pi / steps
         dq = float(pq) / (n - 1)
-        key = "C03/process/%s/%s/%s" % (rf, "StepsPerRevolution" if per == "rev" else "StepsPerTs", "shifted" if (sx or sy) else "centred")
+        key = "C03/process/%s/%s/%s" % (rf, "StepsPerRevolution" if per == "rev" else "StepsPerTs", "shifted" if (sx or sy) else "centred") + ("/low-RF-voltage" if vrf else "")
         if len(q) < steps + 1:
             res.violate(key + "/records", case, "%d records for %d steps" % (len(q), steps), replay=rp)
             continue
